@@ -706,8 +706,10 @@ def fn_key(p):
 
 
 def check_panic_runtime(cx, chk, crate, label):
+    from . import guards
     fns = runtime_reachable(cx, crate)
     n = 0
+    G = guards.Guards(cx, crate)
     for p in fns:
         b = cx.body(crate, p)
         for i, kind, t in panic_sites(b):
@@ -715,6 +717,10 @@ def check_panic_runtime(cx, chk, crate, label):
             key = (fn_key(p), kind)
             tag = "%s %s %s" % (label, key[0], kind)
             if t["k"] == "call" and t.get("fn_exp") and kind.startswith("diverges"):
+                continue
+            if kind in ("assert:overflow_Sub", "assert:bounds") and key not in RUNTIME_PANIC_TABLE and G.verdicts(p).get(i) == "proved":
+                chk.ok("C04.panic", tag, {"fn": key[0], "kind": kind, "discharged_by": "the tests the function makes before the site exclude every value for "
+                                          "which it fails (path-sensitive summary, small values enumerated)"})
                 continue
             if kind == "assert:bounds" and guarded_byte0(b, i, t):
                 chk.ok("C04.panic", tag, {"fn": key[0], "kind": kind, "discharged_by": "dominating non-empty test"})
